@@ -1,5 +1,6 @@
 import TongoProofs.Lemmas.TlbPrims
 import TongoProofs.Lemmas.TlbStack
+import TongoProofs.Lemmas.TlbCanon
 import TongoGen.TlbTypes
 import TongoGen.IntTypes
 /-! # C03 — TL-B values survive encode/decode for every type the library ships
@@ -8,9 +9,12 @@ Property theorems about the model of the reflection codec (`TongoModel/Tlb/*`): 
 regenerated type descriptors. The tie to the Go code is translator X1/X2 + the correspondence check (props/C03.py).
 
 Scope of the theorems: every descriptor `T` with `wfTop env T` (decided per regenerated type: `wf_<T>` in
-TongoGen/TlbTypes.lean), every value in `inDom`. NOT covered (listed in the evidence): types containing a custom
-codec without a model (`opaque`), dictionaries other than the empty one (`dictE`, owned by C05) and the types
-pinned in harness/tlbx/nonwf.go. -/
+TongoGen/TlbTypes.lean), every value in `inDom`. Dictionaries (`dictE` = HashmapE, `dict` = Hashmap written inline)
+are part of the descriptors: their tree is C05's model (`Tongo.Hashmap.marshal` / `unmarshal`) over the value codec
+of the element descriptor, and their case of the induction is C05's `decode_encode_sorted` (`CodecOK_hashmapE`).
+NOT covered (listed in the evidence): types containing a custom codec without a model (`opaque`; among them
+dictionaries whose values are written position-dependently, i.e. inline SnakeData) and the types pinned in
+harness/tlbx/nonwf.go. -/
 namespace Tongo.Tlb.C03
 open Tongo Tongo.Tlb Tongo.Bits
 
@@ -40,7 +44,7 @@ theorem decode_encode_inline (env : Env) (hEnv : EnvWF env) (T : Ty) (hw : wfb e
       (NG env T → ∀ s : Slice, s.isLibrary = false → decode env fuel T (s.prepend xs rs) = .ok (v, s)) := by
   obtain ⟨xs, rs, hb, hrt⟩ := (Inv.all env hEnv primOK_of_proved fuel).enc T v b b' hw hd he
   refine ⟨xs, rs, hb, ?_, ?_⟩
-  · obtain ⟨s', hs', _⟩ := hrt {} rfl (Or.inr ⟨rfl, rfl⟩)
+  · obtain ⟨s', hs', _⟩ := hrt {} rfl (Or.inr ⟨rfl, rfl, rfl⟩)
     refine ⟨s', ?_⟩
     simpa [Slice.prepend] using hs'
   · intro hng s hs
@@ -62,14 +66,129 @@ theorem same_constructor (env : Env) (hEnv : EnvWF env) (cs : Ctors) (hw : wfb e
   simp only [Outcome.ok.injEq, Prod.mk.injEq, Val.ctor, Val.cons.injEq, Val.sym.injEq] at hdec
   exact hdec.1.1.symm
 
-/-- **reencode_hash**, full statement for canonical types: decoding ANY cell and encoding the result reproduces the
-hash. Not proved (it needs the converse induction `encode ∘ decode = id` on canonical encodings: minimal VarUInteger
-lengths, no `Either` whose two sides encode the same value, unique dictionary labels); the proved part is
-`reencode_hash_partial`. On real chain data the statement is checked by the harness (ops `go.redec`, C04 evidence
-lists the non-canonical records). -/
+/-- **reencode_hash**, the unrestricted statement: decoding ANY cell and encoding the result reproduces the hash. It is
+FALSE for most shipped types (witnesses below: `reencode_varuint_witness`, `reencode_ref_witness`,
+`reencode_trailing_witness`; for dictionaries C05's label witnesses) — it holds exactly for
+the canonical types on cells the decoder consumed entirely: `reencode_hash_canonical`. For every well-formed type the
+proved part is `reencode_hash_partial`; on real chain data the statement is checked by the harness (ops `go.redec`,
+C04 evidence lists the non-canonical records). -/
 def ReencodeHash (H : List UInt8 → List UInt8) (env : Env) (T : Ty) : Prop :=
   ∀ fuel (c : Cell) v rest b', decode env fuel T (Slice.ofCell c) = .ok (v, rest) →
     encode env fuel T v Builder.empty = .ok b' → Cell.reprHash H b'.toCell = Cell.reprHash H c
+
+/-- **reencode_exact** (`Canonical T`, TongoModel/Tlb/Canon.lean: fixed-width integers, booleans, byte arrays, tagged
+constructors with distinct names, Maybe, Either, pointers, optional pointer fields, Magic fields, named types built
+from these): WHATEVER slice the decoder is given, if it answers `v` it has consumed exactly the bits
+`xs` (and no reference) that the encoder writes for `v` — into any builder. By the converse induction on descriptors
+(`Lemmas/TlbCanon.CInv`). -/
+theorem reencode_exact (env : Env) (T : Ty) (hc : Canonical env T) (fuel : Nat) (s s' : Slice) (v : Val)
+    (hd : decode env fuel T s = .ok (v, s')) :
+    ∃ xs, s = s'.prepend xs [] ∧ ∀ b b', encode env fuel T v b = .ok b' → b' = b.app xs [] :=
+  (CInv.all env fuel).dec canonFuel T hc s v s' hd
+
+/-- **reencode_hash_canonical**: for a canonical type, decoding ANY ordinary cell that the decoder consumes entirely
+and encoding the result yields THE SAME CELL — hence the same representation hash, for any hash function. (Both side
+conditions are necessary: `reencode_trailing_witness`; an exotic cell is re-encoded as an ordinary one.) -/
+theorem reencode_hash_canonical (H : List UInt8 → List UInt8) (env : Env) (T : Ty) (hc : Canonical env T)
+    (fuel : Nat) (c : Cell) (hord : c.ty = 0 ∧ c.mask = 0) (v : Val) (rest : Slice) (b' : Builder)
+    (hd : decode env fuel T (Slice.ofCell c) = .ok (v, rest)) (hall : rest.bits = [] ∧ rest.refs = [])
+    (he : encode env fuel T v Builder.empty = .ok b') :
+    b'.toCell = c ∧ Cell.reprHash H b'.toCell = Cell.reprHash H c := by
+  obtain ⟨xs, hs, henc⟩ := reencode_exact env T hc fuel _ rest v hd
+  have hb := henc _ _ he
+  have hcell : b'.toCell = c := by
+    obtain ⟨ty, mask, bits, refs⟩ := c
+    obtain ⟨rty, rmask, rbits, rrefs⟩ := rest
+    simp only [Cell.ty, Cell.mask] at hord
+    obtain ⟨rfl, rfl⟩ := hord
+    simp only at hall
+    obtain ⟨rfl, rfl⟩ := hall
+    simp only [Slice.ofCell, Slice.prepend, List.append_nil, List.nil_append, Slice.mk.injEq] at hs
+    obtain ⟨_, _, rfl, rfl⟩ := hs
+    rw [hb]
+    simp [Builder.empty, Builder.app, Builder.toCell]
+  exact ⟨hcell, by rw [hcell]⟩
+
+/-- the canonical regenerated descriptors (185 of the named types on the current source, e.g. ExtBlkRef, BlockIdExt's
+parts, HashUpdate, TickTock, SplitMergeInfo, the fixed-layout config parameters, the wallet data records): for every
+entry of the regenerated environment that passes the check, `reencode_hash_canonical` applies -/
+theorem reencode_hash_generated (H : List UInt8 → List UInt8) (T : Ty)
+    (hc : canonb TongoGen.TlbTypes.env canonFuel T = true)
+    (fuel : Nat) (c : Cell) (hord : c.ty = 0 ∧ c.mask = 0) (v : Val) (rest : Slice) (b' : Builder)
+    (hd : decode TongoGen.TlbTypes.env fuel T (Slice.ofCell c) = .ok (v, rest))
+    (hall : rest.bits = [] ∧ rest.refs = [])
+    (he : encode TongoGen.TlbTypes.env fuel T v Builder.empty = .ok b') :
+    Cell.reprHash H b'.toCell = Cell.reprHash H c :=
+  (reencode_hash_canonical H _ T hc fuel c hord v rest b' hd hall he).2
+
+open TongoGen.TlbTypes in
+theorem canonical_tlb_ExtBlkRef : Canonical env desc_tlb_ExtBlkRef := by unfold Canonical; decide +kernel
+open TongoGen.TlbTypes in
+theorem canonical_tlb_HashUpdate : Canonical env desc_tlb_HashUpdate := by unfold Canonical; decide +kernel
+open TongoGen.TlbTypes in
+theorem canonical_tlb_TickTock : Canonical env desc_tlb_TickTock := by unfold Canonical; decide +kernel
+open TongoGen.TlbTypes in
+theorem canonical_tlb_StorageExtraInfo : Canonical env desc_tlb_StorageExtraInfo := by unfold Canonical; decide +kernel
+open TongoGen.TlbTypes in
+theorem canonical_tlb_ValidatorDescr : Canonical env desc_tlb_ValidatorDescr := by unfold Canonical; decide +kernel
+open TongoGen.TlbTypes in
+/-- not canonical: anything that contains Grams (VarUInteger 16), a reference or a dictionary -/
+theorem noncanonical_examples :
+    canonb env canonFuel desc_tlb_CurrencyCollection = false ∧ canonb env canonFuel desc_tlb_Message = false ∧
+    canonb env canonFuel desc_tlb_Transaction = false ∧ canonb env canonFuel desc_tlb_StateInit = false := by
+  decide +kernel
+
+/-! Witnesses: why each excluded construct is excluded (decided on literals). -/
+
+set_option maxRecDepth 20000 in
+/-- **reencode_varuint_witness**: `VarUInteger 16` / Grams — the cell `len=2, 00 05` decodes to 5, which is written
+back as `len=1, 05`: a different cell. -/
+theorem reencode_varuint_witness :
+    (match Prim.dec .grams ({ bits := natToBits 4 2 ++ natToBits 16 5 } : Slice) with
+      | .ok (.int v, rest) =>
+        (match Prim.enc .grams (.int v) Builder.empty with
+          | .ok b => decide (v = 5) && rest.bits.isEmpty && decide (b.bits = natToBits 4 1 ++ natToBits 8 5)
+          | _ => false)
+      | _ => false) = true := by
+  decide
+
+set_option maxRecDepth 20000 in
+/-- **reencode_ref_witness**: `^uint8` — the decoder reads 8 bits of the child and ignores the rest; the re-encoded
+child has 8 bits. -/
+theorem reencode_ref_witness :
+    (let T : Ty := .struct (.cons "X" .ref (.uint 8) .nil)
+     let child := Cell.mk 0 0 (natToBits 8 7 ++ [true, true]) []
+     match decode (fun _ => none) 4 T ({ refs := [child] } : Slice) with
+      | .ok (v, _) =>
+        (match encode (fun _ => none) 4 T v Builder.empty with
+          | .ok b => (match b.refs with
+            | [Cell.mk _ _ bits _] => decide (bits = natToBits 8 7)
+            | _ => false)
+          | _ => false)
+      | _ => false) = true := by
+  decide
+
+set_option maxRecDepth 20000 in
+/-- **reencode_trailing_witness**: even for a canonical type the cell must be consumed entirely — `uint8` on a
+10-bit cell: the two trailing bits are not part of the value. -/
+theorem reencode_trailing_witness :
+    (match decode (fun _ => none) 2 (.uint 8) ({ bits := natToBits 8 7 ++ [true, true] } : Slice) with
+      | .ok (v, rest) =>
+        (match encode (fun _ => none) 2 (.uint 8) v Builder.empty with
+          | .ok b => decide (b.bits = natToBits 8 7) && decide (rest.bits = [true, true])
+          | _ => false)
+      | _ => false) = true := by
+  decide
+
+/-- **magic_orig_defect** (decided witness, found while proving `reencode_exact`): `Magic.ValidateTag` as shipped dropped
+the error of `ReadUint`, so for a tag whose value is 0 (`shardident$00`, `msg_metadata#0`, `out_msg_queue_extra#0`,
+`#00` …) a cell that ENDS before the tag passed the tag check with nothing consumed; the repaired decoder rejects it
+(`fix:` commit "Magic.ValidateTag returns the error of the read"). -/
+theorem magic_orig_defect :
+    (match decodeMagicOrig (some ⟨8, 0⟩) ({} : Slice), decodeMagic (some ⟨8, 0⟩) ({} : Slice) with
+      | .ok (_, rest), .err _ => rest.bits.isEmpty
+      | _, _ => false) = true := by
+  decide
 
 /-- **reencode_hash_partial** (side condition "decoded from our own encoding"): a cell produced by the encoder
 decodes to a value whose encoding is the same cell — in particular the same representation hash, for any hash
@@ -110,6 +229,36 @@ theorem roundtrip_tlb_Message (fuel : Nat) (v : Val)
     ∃ rest, decode TongoGen.TlbTypes.env fuel TongoGen.TlbTypes.desc_tlb_Message (Slice.ofCell b'.toCell)
       = .ok (v, rest) :=
   decode_encode _ generated_env_wf _ TongoGen.TlbTypes.wf_tlb_Message fuel v hd b' he
+
+/-- `roundtrip_<T>` for the transaction and account records and the wallet bodies (instances of
+`roundtrip_generated`; their `wf_<T>` obligations are regenerated on every run) -/
+theorem roundtrip_records :
+    let E := TongoGen.TlbTypes.env
+    ∀ T ∈ [TongoGen.TlbTypes.desc_tlb_Transaction, TongoGen.TlbTypes.desc_tlb_TransactionDescr,
+        TongoGen.TlbTypes.desc_tlb_HashUpdate, TongoGen.TlbTypes.desc_tlb_Account,
+        TongoGen.TlbTypes.desc_tlb_AccountStorage, TongoGen.TlbTypes.desc_tlb_StorageInfo,
+        TongoGen.TlbTypes.desc_tlb_ShardAccount, TongoGen.TlbTypes.desc_wallet_MessageV5Beta,
+        TongoGen.TlbTypes.desc_wallet_HighloadV2Message, TongoGen.TlbTypes.desc_wallet_MessageV3,
+        TongoGen.TlbTypes.desc_wallet_MessageV4],
+      ∀ (fuel : Nat) (v : Val), inDom E fuel T v = true → ∀ b' : Builder,
+        encode E fuel T v Builder.empty = .ok b' →
+        ∃ rest, decode E fuel T (Slice.ofCell b'.toCell) = .ok (v, rest) := by
+  intro E T hT fuel v hd b' he
+  have hw : wfTop E T = true := by
+    simp only [List.mem_cons, List.mem_nil_iff, or_false] at hT
+    rcases hT with rfl | rfl | rfl | rfl | rfl | rfl | rfl | rfl | rfl | rfl | rfl
+    · exact TongoGen.TlbTypes.wf_tlb_Transaction
+    · exact TongoGen.TlbTypes.wf_tlb_TransactionDescr
+    · exact TongoGen.TlbTypes.wf_tlb_HashUpdate
+    · exact TongoGen.TlbTypes.wf_tlb_Account
+    · exact TongoGen.TlbTypes.wf_tlb_AccountStorage
+    · exact TongoGen.TlbTypes.wf_tlb_StorageInfo
+    · exact TongoGen.TlbTypes.wf_tlb_ShardAccount
+    · exact TongoGen.TlbTypes.wf_wallet_MessageV5Beta
+    · exact TongoGen.TlbTypes.wf_wallet_HighloadV2Message
+    · exact TongoGen.TlbTypes.wf_wallet_MessageV3
+    · exact TongoGen.TlbTypes.wf_wallet_MessageV4
+  exact decode_encode _ generated_env_wf T hw fuel v hd b' he
 
 /-! ## CodecOK lemmas of the hand-written codecs, in readable form -/
 
@@ -188,13 +337,62 @@ theorem grams_orig_defect :
 
 /-- **signedcoins_roundtrip**, **msgaddress_roundtrip** (four constructors, anycast depth 1..30, extern length
 0..511), **snake_roundtrip** (any length, chaining over references) and the other hand-written codecs: the uniform
-statement `PrimOK p` for every inline codec (18); wallet.W5Actions, which occupies whole cells, is `w5_refOK`. -/
+statement `PrimOK p` for every inline codec (19); wallet.W5Actions, which occupies whole cells, is `w5_refOK`. -/
 theorem codec_ok (p : Prim) (hp : p.proved = true) : PrimOK p := primOK_of_proved p hp
 
 theorem signedcoins_roundtrip : PrimOK .signedCoins := primOK_signedCoins
 theorem msgaddress_roundtrip : PrimOK .msgAddress := primOK_msgAddress
 theorem snake_roundtrip : PrimOK .snake := primOK_snake
 theorem wallet_payload_roundtrip : PrimOK .payloadV1toV4 := primOK_payloadV1toV4
+
+/-- **CodecOK_hashmapE**: `tlb.HashmapE[K, V]` over ANY key descriptor with a fixed width (generated UintN / IntN /
+BitsN, wide integers, AddressWithWorkchain) and ANY well-formed value descriptor round-trips every in-domain map:
+keys listed in ascending order of their encoded bits (the order the decoder returns), values that fit a leaf. The
+proof instantiates C05's `decode_encode_sorted` / `encode_sorted_tree` with the value codec of `t`
+(`Lemmas/TlbGeneric.enc_dictE`, `Lemmas/TlbDictCore.dict_roundtrip`); it is not greedy: the decoder leaves what
+follows the `Maybe ^` untouched. -/
+theorem CodecOK_hashmapE (env : Env) (hEnv : EnvWF env) (k t : Ty) (hw : wfb env (.dictE k t) = true)
+    (fuel : Nat) (v : Val) (hd : inDom env fuel (.dictE k t) v = true) (b b' : Builder)
+    (he : encode env fuel (.dictE k t) v b = .ok b') :
+    ∃ xs rs, b' = b.app xs rs ∧
+      ∀ s : Slice, s.isLibrary = false → decode env fuel (.dictE k t) (s.prepend xs rs) = .ok (v, s) := by
+  obtain ⟨xs, rs, hb, _, hng⟩ := decode_encode_inline env hEnv (.dictE k t) hw fuel v hd b b' he
+  exact ⟨xs, rs, hb, hng ⟨1, rfl⟩⟩
+
+/-- **CodecOK_hashmap**: `tlb.Hashmap[K, V]` (the root edge written into the current cell, never empty) as the
+content of a cell: the round trip of C05 again, the decoder ignoring the type of the cell it reads from as long as
+it is neither pruned nor a library cell (`Hashmap.unmarshal_root_irrel`). -/
+theorem CodecOK_hashmap (env : Env) (hEnv : EnvWF env) (k t : Ty) (hw : wfb env (.dict k t) = true)
+    (fuel : Nat) (v : Val) (hd : inDom env fuel (.dict k t) v = true) (b' : Builder)
+    (he : encode env fuel (.dict k t) v Builder.empty = .ok b') :
+    ∃ rest, decode env fuel (.dict k t) (Slice.ofCell b'.toCell) = .ok (v, rest) :=
+  decode_encode env hEnv (.dict k t) (by simpa [wfTop, wfRefOf] using hw) fuel v hd b' he
+
+/-- **CodecOK_payloadHighload**: `wallet.PayloadHighload` (0..254 messages) is HashmapE 16 over the cells
+`mode:uint8 message:^…` with the keys 0..n-1; its round trip is `CodecOK_hashmapE` composed with the conversion of
+the message list (`hlItems_values`). The domain asks the converted dictionary to be in the domain of the
+dictionary type (keys ascending: they are 0..n-1). -/
+theorem CodecOK_payloadHighload (env : Env) (hEnv : EnvWF env) (fuel : Nat) (v : Val)
+    (hd : inDom env fuel .highload v = true) (b b' : Builder) (he : encode env fuel .highload v b = .ok b') :
+    ∃ xs rs, b' = b.app xs rs ∧
+      ∀ s : Slice, s.isLibrary = false → decode env fuel .highload (s.prepend xs rs) = .ok (v, s) := by
+  obtain ⟨xs, rs, hb, _, hng⟩ := decode_encode_inline env hEnv .highload rfl fuel v hd b b' he
+  exact ⟨xs, rs, hb, hng ⟨1, rfl⟩⟩
+
+set_option maxRecDepth 100000 in
+/-- the domain of `CodecOK_payloadHighload` is inhabited by real payloads (TEST on a literal): three messages -/
+example :
+    let m (k : Nat) : Val := Val.list [Val.some (.cell (.mk 0 0 (natToBits 9 k) [])), .int (k : Int)]
+    inDom (fun _ => none) 8 .highload (Val.list [m 3, m 130, m 255]) = true := by
+  decide
+
+/-- the key descriptors a dictionary admits: exactly those with a fixed width -/
+theorem hashmap_key_widths :
+    keyWidth (.uint 32) = some 32 ∧ keyWidth (.int 32) = some 32 ∧ keyWidth (.bytes 32) = some 256 ∧
+    keyWidth (.prim (.bigUint 256)) = some 256 ∧ keyWidth (.prim (.bigInt 257)) = some 257 ∧
+    keyWidth (.prim .addrWc) = some 288 := by decide
+
+theorem addrWc_roundtrip : PrimOK .addrWc := primOK_addrWc
 
 /-- **vmstack_convention**: `decode (encode s) = ok s.reverse` — a VM stack given top-first (the way arguments are
 listed for `RunSmcMethod`) reads back bottom-first (the way results are returned), for every element type that is
